@@ -86,9 +86,9 @@ func (this *Hnsw) Insert(id uuid.UUID, value math.Vector, metadata Metadata, ver
 		}
 		if atomic.CompareAndSwapPointer(&this.entrypoint, nil, unsafe.Pointer(vertex)) {
 			return nil
-		} else {
-			vertex.setLevel(vertexLevel)
 		}
+		// Another writer provided the entry point first. The vertex is already visible to other goroutines:
+		// it keeps level 0 and is linked like any other vertex
 	} else {
 		vertex = newHnswVertex(id, value, metadata, vertexLevel)
 		if err := this.storeVertex(vertex); err != nil {
@@ -97,6 +97,11 @@ func (this *Hnsw) Insert(id uuid.UUID, value math.Vector, metadata Metadata, ver
 	}
 
 	entrypoint := (*hnswVertex)(atomic.LoadPointer(&this.entrypoint))
+	if entrypoint == nil {
+		// Everything else was removed in the meantime: nothing to link to
+		atomic.CompareAndSwapPointer(&this.entrypoint, nil, unsafe.Pointer(vertex))
+		return nil
+	}
 	minDistance := this.space.Distance(vertex.vector, entrypoint.vector)
 	for l := entrypoint.level; l > vertex.level; l-- {
 		entrypoint, minDistance = this.greedyClosestNeighbor(vertex.vector, entrypoint, minDistance, l)
@@ -131,9 +136,16 @@ func (this *Hnsw) Insert(id uuid.UUID, value math.Vector, metadata Metadata, ver
 		}
 	}
 
-	entrypoint = (*hnswVertex)(atomic.LoadPointer(&this.entrypoint))
-	if entrypoint != nil && vertex.level > entrypoint.level {
-		atomic.CompareAndSwapPointer(&this.entrypoint, this.entrypoint, unsafe.Pointer(vertex))
+	// The new vertex becomes the entry point if it is higher than the current one (or nothing else is left);
+	// retried when another writer changed the entry point in between
+	for {
+		current := atomic.LoadPointer(&this.entrypoint)
+		if current != nil && vertex.level <= (*hnswVertex)(current).level {
+			break
+		}
+		if atomic.CompareAndSwapPointer(&this.entrypoint, current, unsafe.Pointer(vertex)) {
+			break
+		}
 	}
 
 	return nil
